@@ -154,7 +154,11 @@ func (e *Exec) execSend(s *State, f *Frame, in *ssa.Send) stepResult {
 // trySend performs a send if possible without blocking.
 func (e *Exec) trySend(s *State, ch *ChanObj, id ObjID, v Value) bool {
 	if len(ch.Buf) == 0 {
-		if rg, caseIdx := e.findBlockedReceiver(s, id); rg != nil && ch.Cap == 0 {
+		// a receiver parked on this channel (plain receive or a select case) is
+		// handed the value directly and its operation is complete -- also for
+		// buffered channels: a parked select commits to the first case that
+		// fires, it is not re-evaluated when the goroutine runs again
+		if rg, caseIdx := e.findBlockedReceiver(s, id); rg != nil {
 			e.completeRecv(s, rg, caseIdx, v)
 			return true
 		}
@@ -304,6 +308,29 @@ func (e *Exec) closeChan(s *State, v Value) {
 	nc := *ch
 	nc.Closed = true
 	s.heap[id] = &nc
+	// every receiver parked on the channel completes now with (zero, false);
+	// a parked select commits to this case
+	if len(ch.Buf) == 0 {
+		for {
+			rg, caseIdx := e.findBlockedReceiver(s, id)
+			if rg == nil {
+				break
+			}
+			e.completeRecvClosed(s, rg, caseIdx, ch.Elem)
+		}
+	}
+}
+
+func (e *Exec) completeRecvClosed(s *State, rg *G, caseIdx int, elem types.Type) {
+	rf := rg.top()
+	switch in := rf.block.Instrs[rf.ip].(type) {
+	case *ssa.UnOp:
+		e.set(rf, in, e.recvResult(in, zeroValue(elem), false))
+	case *ssa.Select:
+		e.set(rf, in, e.selectResult(in, caseIdx, nil, false))
+	}
+	rf.ip++
+	rg.status = GRunnable
 }
 
 // canRun: can a blocked goroutine make progress if scheduled now?
